@@ -327,6 +327,7 @@ Definition cmp_build (o : cmpop) (qc : pieces) (elems : option (list pieces)) (i
     end
   | ONeq =>
     match elems with
+    | Some [] => qc ++ pstr " IS NOT NULL"          (* b6731b9: as IN.NegationBuild for no values *)
     | Some l => qc ++ pstr " NOT IN (" ++ sepc [PC ","] l ++ [PC ")"]
     | None => if isnil then qc ++ pstr " IS NOT NULL" else qc ++ pstr " <> " ++ var
     end
